@@ -189,7 +189,8 @@ def _rand_opts(rng, kind):
         if rng.random() < 0.6:
             o['path'] = str(rng.choice(['radial', 'spiral']))
         if rng.random() < 0.5:
-            o['dtheta'] = float(rng.uniform(0.05, 1.2))
+            # (either sense of rotation; occasionally no rotation at all)
+            o['dtheta'] = float(rng.uniform(0.05, 1.2)) * float(rng.choice([1.0, 1.0, -1.0])) if rng.random() < 0.92 else 0.0
     return o
 
 
